@@ -394,10 +394,14 @@ structure OA where
   deriver : Bool
   deriving Repr, Inhabited
 
+/-- the first entry named `nm` becomes "derived by the current entity" (`list[i]->deriver = ent; break;`) -/
+def markFirst (nm : String) : List OA → Option (List OA)
+  | [] => none
+  | x :: xs => if x.name == nm then some ({ x with deriver := true } :: xs) else (markFirst nm xs).map (x :: ·)
+
+/-- … searching from index `cnt` (the entries added for this entity's own supertypes) -/
 def markFrom (cnt : Nat) (nm : String) (l : List OA) : Option (List OA) :=
-  match (l.zipIdx.find? (fun p => p.2 ≥ cnt && p.1.name == nm)) with
-  | some p => some (l.zipIdx.map (fun q => if q.2 == p.2 then { q.1 with deriver := true } else q.1))
-  | none => none
+  (markFirst nm (l.drop cnt)).map (l.take cnt ++ ·)
 
 /-- `populateAttrList`: supertypes first; an own attribute whose name occurs among the entries added for this
     entity's supertypes marks that entry as derived by this entity (also for an explicit redeclaration), otherwise
